@@ -129,11 +129,16 @@ func (t *TargetsManager) UpdateTargets(req *shard.UpdateTargetsRequest) (err err
 		targetsTotal.WithLabelValues().Set(float64(len(t.targets.Status)))
 	}()
 
+	old := t.targets
 	t.targets.Targets = req.Targets
-	t.updateStatus()
+	undo := t.updateStatus()
 	t.updateIdleState()
 
 	if err := t.doCallbacks(); err != nil {
+		// the request is answered with an error, so it must not be in force either: what this shard reports
+		// has to show the coordinator that it does not have what was asked for, or it is never asked again
+		undo()
+		t.targets = old
 		return errors.Wrapf(err, "do callbacks")
 	}
 
@@ -150,7 +155,14 @@ func (t *TargetsManager) updateIdleState() {
 	}
 }
 
-func (t *TargetsManager) updateStatus() {
+// updateStatus returns how to put the entries it keeps back into the state they were in
+func (t *TargetsManager) updateStatus() (undo func()) {
+	type before struct {
+		st    *target.ScrapeStatus
+		state string
+		times uint64 // the scrapes a begin of transfer stopped counting
+	}
+	touched := make([]before, 0)
 	status := map[uint64]*target.ScrapeStatus{}
 	for job, ts := range t.targets.Targets {
 		for _, tar := range ts {
@@ -159,15 +171,24 @@ func (t *TargetsManager) updateStatus() {
 			} else {
 				status[tar.Hash] = t.targets.Status[tar.Hash]
 			}
+			b := before{st: status[tar.Hash], state: status[tar.Hash].TargetState}
 			if status[tar.Hash].TargetState == target.StateNormal && tar.TargetState == target.StateInTransfer {
 				t.log.Infof("%s/%s begin transfer", job, tar.NoParamURL())
+				b.times = status[tar.Hash].ScrapeTimes
 				status[tar.Hash].ScrapeTimes = 0
 			}
 
 			status[tar.Hash].TargetState = tar.TargetState
+			touched = append(touched, b)
 		}
 	}
 	t.targets.Status = status
+	return func() {
+		for i := len(touched) - 1; i >= 0; i-- {
+			touched[i].st.TargetState = touched[i].state
+			touched[i].st.ScrapeTimes += touched[i].times
+		}
+	}
 }
 
 func (t *TargetsManager) doCallbacks() error {
